@@ -80,7 +80,26 @@ class Evaluator:
                 return text, lm, d
             errs = _err_lines(r.err, "t.h")
             if not errs:
-                raise core.HarnessError("g++ failed without a line: " + r.err[-800:])
+                # a diagnostic without location (e.g. "cc1plus: error: declaration of 'a0' as array of void"):
+                # find the first offending declaration by the shortest failing prefix
+                order = [lm[ln][1] for ln in sorted(lm) if lm[ln][0] == "decl" and lm[ln][1] in keep]
+                lo, hi = 0, len(order)
+
+                def gfails(k):
+                    t2, _ = dg.render_tu(tu, set(order[:k]), keep_env)
+                    open(os.path.join(d, "t2.h"), "w").write(t2)
+                    return tools.gxx(["-fsyntax-only", "-w", "-x", "c++", "t2.h"], cwd=d).rc != 0
+                if not order or gfails(0):
+                    raise core.HarnessError("g++ failed without a line: " + r.err[-800:])
+                while hi - lo > 1:
+                    mid = (lo + hi) // 2
+                    if gfails(mid):
+                        hi = mid
+                    else:
+                        lo = mid
+                keep.discard(order[hi - 1])
+                status[order[hi - 1]] = ("gxx-rejected", r.err.strip().split("\n")[0][:80])
+                continue
             progress = False
             for ln in errs:
                 tag = lm.get(ln)
@@ -120,8 +139,12 @@ class Evaluator:
         """interrogate rejected the TU rendered as (text, lm) in directory d (result r).  -> (tag, message) naming
         the first offending line; diagnostics the parser places at the end of the file (or on no line of ours) are
         localised by a binary search for the shortest failing prefix of the declaration list."""
-        errs = _err_lines(r.err, "t.h")
+        errs = _err_lines(r.err, "t.h") if not r.died() else {}
         last_line = max(lm) if lm else 0
+        if r.died():
+            m = re.search(r"Assertion `([^']*)' failed", r.err)
+            fr = [f for f in r.frames(6) if not f.startswith("__")][:2]
+            died_msg = "died:" + r.how() + ":" + (("assert(" + m.group(1)[:60] + ")@") if m else "") + ",".join(fr)
         if errs:
             ln = min(errs)
             tag = lm.get(ln)
@@ -129,6 +152,8 @@ class Evaluator:
             if tag and not eof:
                 return tag, errs[ln][:100]
         msg = (errs[min(errs)] if errs else r.err.strip().split("\n")[0])[:100]
+        if r.died():
+            msg = died_msg[:160]
         order = [lm[ln][1] for ln in sorted(lm) if lm[ln][0] == "decl"]
         if not order:
             return None, msg
@@ -169,9 +194,6 @@ class Evaluator:
                 return status, info
             if self.parse_ok(r):
                 break
-            if r.died():
-                info["tool_problem"] = "interrogate died: " + r.how()
-                return status, info
             reruns += 1
             if reruns > max_parser_reruns:
                 for i in keep:
@@ -390,6 +412,8 @@ PLAIN_NAMED = re.compile(r"^(?:method:|static-method:)?(?:ret|param|var|member|t
 
 def cause_of(cat, sig, printed=""):
     m = PLAIN_NAMED.match(sig)
+    if cat == "rejected-valid" and printed.startswith("died:"):
+        return "tool-aborts-on-valid-input," + re.sub(r"[^\w:(),@=<>!&|.*+-]", "_", printed[5:])[:120]
     if cat == "rejected-valid":
         if re.search(r"alias=(const |volatile |const volatile )", sig):
             return "alias-declaration-starting-with-cv-qualifier"
@@ -407,6 +431,8 @@ def cause_of(cat, sig, printed=""):
         if m:
             return "type-name-not-recognised,via=" + m.group(1)
         return None
+    if re.search(r"^method:ret=(ptr|ref|rref|memptr)\((array|fn)\(.*cvq=const", sig) and "volatile" not in sig:
+        return "const-method-returning-pointer-to-array-or-function-misplaces-const"
     if "volatile" in sig:
         return "volatile-qualifier-dropped"
     if re.search(r"memptr\((?!fn\()", sig):
@@ -429,8 +455,6 @@ def cause_of(cat, sig, printed=""):
         return "template-argument-printed-as-unknown"
     if re.search(r"fn\(const ", sig):
         return "const-return-type-of-function-pointer-dropped"
-    if re.search(r"^method:ret=(ptr|ref|rref)\(fn\(.*cvq=const", sig):
-        return "const-method-returning-function-pointer-misplaces-const"
     if m:
         return "name-resolved-to-wrong-entity,via=" + m.group(1)
     return None
@@ -447,11 +471,33 @@ def run_case(ctx, case):
     res = core.CaseResult()
     b = core.build("asan")
     d = ctx.casedir(case["id"])
+    if "tus" in case:
+        # stored witnesses (findings / regression corpus): many small TUs, judged concurrently
+        from concurrent.futures import ThreadPoolExecutor
+
+        def one(k):
+            r1 = core.CaseResult()
+            judge_tu(b, os.path.join(d, f"w{k}"), copy.deepcopy(case["tus"][k]), r1, case)
+            return r1
+        with ThreadPoolExecutor(max_workers=min(8, core.NPROC)) as ex:
+            for r1 in ex.map(one, range(len(case["tus"]))):
+                res.violations += r1.violations
+                res.features |= r1.features
+                for k, v in r1.counters.items():
+                    res.count(k, v)
+                res.sample = res.sample or r1.sample
+        return res
     if "tu" in case:
         tu = copy.deepcopy(case["tu"])
     else:
         rng = random.Random(case["seed"])
         tu = dg.gen_tu(rng, n_decls=case.get("n", 50), n_hosts=case.get("hosts", 4), depth=case.get("depth", 3))
+    judge_tu(b, d, tu, res, case)
+    return res
+
+
+def judge_tu(b, d, tu, res, case):
+    os.makedirs(d, exist_ok=True)
     ev = Evaluator(b, d)
     st, info = ev.evaluate(tu)
     by = {x["id"]: x for x in tu["decls"]}
@@ -475,7 +521,8 @@ def run_case(ctx, case):
     for k, s in st.items():
         if isinstance(k, str) and k.startswith("env:") and s[0] == "parser-rejected":
             e = envs[k[4:]]
-            res.violation("rejected-valid:env=" + e["cls"], witness=e["text"], got=s[1], expected="g++ accepts")
+            res.violation("rejected-valid:env=" + e["cls"], witness=e["text"], got=s[1], expected="g++ accepts",
+                          tu={"env": [e], "late_env": [], "hosts": [], "decls": []})
         if isinstance(k, str) and k.startswith("host:") and s[0] == "parser-rejected":
             h = [x for x in tu["hosts"] if x["id"] == k[5:]][0]
             res.violation("rejected-valid:host-class", witness=h["open"] + " ".join(h["nested"]) + h["close"], got=s[1],
@@ -500,8 +547,11 @@ def run_case(ctx, case):
         cap = case.get("min_cap", 40)
         chosen = dict(sorted(work.items(), key=lambda kv: dg.decl_size(kv[1][0]))[:cap])
         res.count("violating_declarations", len(pending))
-        mins, last = minimise(ev, tu, chosen)
-        res.count("violating_declarations_not_minimised", len(work) - len(mins))
+        if case.get("minimal"):
+            mins, last = {i: v[0] for i, v in chosen.items()}, {}
+        else:
+            mins, last = minimise(ev, tu, chosen)
+            res.count("violating_declarations_not_minimised", len(work) - len(mins))
         seen = set()
         for i, m in sorted(mins.items()):
             cat = chosen[i][1]
@@ -514,16 +564,12 @@ def run_case(ctx, case):
             if key in seen:
                 continue
             seen.add(key)
-            if i in last:
-                st[i] = last[i]
-            one = dict(tu, decls=[m])
-            text, _ = dg.render_tu(one, keep={m["id"]})
             res.violation(key, witness=dg.render_decl(m), original=dg.render_decl(by[i]),
                           got=str(st[i][1:])[:300], expected="g++ accepts the declaration and the printed type is exactly "
                           "the declared one", tu={"env": tu["env"], "late_env": tu.get("late_env", []),
-                                                  "hosts": tu["hosts"], "decls": [m]})
+                                                  "hosts": [h for h in tu["hosts"] if h["id"] == m["site"]],
+                                                  "decls": [m]})
     res.count("interrogate_runs", ev.runs)
-    return res
 
 
 # ---------------------------------------------------------------------------
